@@ -130,14 +130,23 @@ def pair_results(ctx, ops, out, meta, label):
     return res
 
 
+BUILDER_THEOREMS = ["Mpc." + n for n in [
+    "C09_add_target_equiv", "C09_sub_target_equiv", "C09_mul_threshold_irrelevant", "C09_mul_karatsuba_eq_array",
+    "C09_mul_target_equiv", "C09_mul_target_equiv_bits", "C09_hamming_target_equiv",
+    "C09_udiv_long_target_equiv", "C09_umod_long_target_equiv"]]
+
+
 def strip_chk(line):
     return re.sub(r"^chk=[^;]*;", "", line)
 
 
 def run(ctx):
     ctx.prove("MpcVerif.Props.C09", THEOREMS)
+    # operator level of the threshold / target axes: corollaries of the C07 exactness theorems, every width and value
+    ctx.prove("MpcVerif.Props.C09Builders", BUILDER_THEOREMS)
     if ctx.tier == "thorough":
         ctx.leanchecker("MpcVerif.Props.C09")
+        ctx.leanchecker("MpcVerif.Props.C09Builders")
     ctx.build_drv()
     facts(ctx)
     n = 60 if ctx.tier == "quick" else 350
